@@ -510,7 +510,7 @@ def c12_task(task):
             except Exception:
                 continue
             for sc in scs[:6]:
-                if sc[1] and 'corrupt' not in sc[0] and 'flipped' not in sc[0]:
+                if sc[0] != 'MT' and sc[1] and 'corrupt' not in sc[0] and 'flipped' not in sc[0]:
                     for s_ in sc[1]:
                         one(s_, 'builder')
         elif c < 0.75:
